@@ -98,6 +98,9 @@ def module_body(r, tag, imports):
         b.append(("import", alias, path))
     b.append(("print", G.call(fn)))
     b.append(("print", G.call(fn, G.var(n2))))
+    # history: the module-level name has now been read at top level; a parameter of the same name still shadows it
+    b.append(("print", G.call(fn, G.lst(G.s(tag), G.num(1), G.num(2), G.num(3), G.num(4)))))
+    b.append(("print", G.call(fn)))
     k = r.below(4)
     if k == 0:
         b.append(("print", G.var("_প্ল্যাটফর্ম")))
